@@ -10,7 +10,9 @@
 (*                signature check and the FIFO dedup ring of receivePublish.             *)
 (*                                                                                       *)
 (* One action per critical section of the implementation:                                *)
-(*   handleSubscribe   = SubReject | Sub1 (remoteMu taken, interest recorded)            *)
+(*   handleSubscribe   = SubReject | SubCheck (validation, Membership.CheckMember - no   *)
+(*                                             lock is held yet)                         *)
+(*                                 ; Sub1 (remoteMu taken, interest recorded)            *)
 (*                                 ; Sub2 (AddTagsCtx under pool.mu, rollback when the   *)
 (*                                         stream vanished, remoteMu released)           *)
 (*   handleUnsubscribe = Unsub1 (interest withdrawn under remoteMu) ; Unsub2 (RemoveTagsCtx)*)
@@ -44,6 +46,8 @@ CONSTANTS
     FIX_PruneEmpty, \* TRUE: handleSubscribe drops the records it created when nothing was accepted (repaired)
     AllowLate,      \* TRUE: a stream may hand one more frame to the engine after it left the pool (bound of a configuration)
     FlipAccounts,   \* accounts whose membership changes during a run (bound of a configuration)
+    AtomicCheck,    \* TRUE: nothing is scheduled between a subscribe's membership check and its lock (bound of a
+                    \* configuration; FALSE = as the code is: the check happens before remoteMu is taken)
     \* ---- client half
     Self,           \* the client's own account
     LocalPats,      \* <<space, pattern>> pairs the application may subscribe locally
@@ -93,11 +97,13 @@ VARIABLES
     refs,       \* [GoodSpaces -> [PatU -> Nat]]  trie refcounts                                (view 1)
     member,     \* set of <<account, space>>   what Deps.Membership answers
     pend,       \* the handleSubscribe that holds remoteMu between Sub1 and Sub2 (NoPend = remoteMu free)
-    busy,       \* [Sids -> "idle" | "sub" | "unsub"]  frame the stream's read loop is handling
+    busy,       \* [Sids -> "idle" | "check" | "sub" | "unsub"]  frame the stream's read loop is handling
+    chk,        \* [Sids -> the subscribe that passed its checks and has not taken remoteMu yet]
     pendU,      \* [Sids -> tags]  tags a handleUnsubscribe still has to remove from the pool
     late,       \* [Sids -> BOOLEAN] the one frame handled after the stream left the pool was used
     tokens,     \* [Peers -> 0..Burst] publish rate limiter
     want,       \* ghost: [Sids -> tags] subscriptions accepted and not withdrawn / evicted / closed
+    evicted,    \* ghost: <<account, space>> pairs evicted as non-members and not re-admitted since
     \* ---- client half
     lpats,      \* set of <<space, pattern>> with a local handler
     ring,       \* Seq of message ids: the dedup ring, oldest first
@@ -105,12 +111,13 @@ VARIABLES
     \* ---- outputs of the last step (history variable; hidden by VIEW in exhaustive runs)
     out
 
-nodeVars   == <<st, tags, hasRec, recSp, recPat, total, remoteDom, refs, pend, busy, pendU, late, tokens, want>>
+nodeVars   == <<st, tags, hasRec, recSp, recPat, total, remoteDom, refs, pend, busy, chk, pendU, late, tokens, want, evicted>>
 clientVars == <<lpats, ring, hid>>
 vars       == <<nodeVars, member, clientVars, out>>
 View       == <<nodeVars, member, clientVars>>
 
 NoPend == [s |-> 0, sp |-> "", acc |-> <<>>, rej |-> <<>>]
+NoChk  == [sp |-> "", f |-> <<>>]
 NoDeliver == [x \in Sids |-> 0]
 NoMsg == [id |-> 0, src |-> "", sig |-> FALSE, ts |-> "", space |-> "", topic |-> <<>>, idOk |-> FALSE]
 \* arguments of a Publish step (s = 0: none) / the frame of a Receive step, kept with the outputs for the step properties
@@ -126,6 +133,7 @@ Init ==
     /\ refs = [sp \in GoodSpaces |-> [p \in PatU |-> 0]]
     /\ member = InitMember
     /\ pend = NoPend /\ busy = [s \in Sids |-> "idle"] /\ pendU = [s \in Sids |-> {}]
+    /\ chk = [s \in Sids |-> NoChk] /\ evicted = {}
     /\ late = [s \in Sids |-> FALSE]
     /\ tokens = [p \in Peers |-> Burst]
     /\ want = [s \in Sids |-> {}]
@@ -140,8 +148,10 @@ SeqSet(q)      == {q[i] : i \in 1..Len(q)}
 MinOf(S)       == CHOOSE x \in S : \A y \in S : x <= y
 
 MuFree == pend = NoPend
+\* bound AtomicCheck: while a subscribe sits between its check and its lock nothing else is scheduled
+NoCheckGap == ~AtomicCheck \/ \A s \in Sids : busy[s] # "check"
 \* the read loop of s may hand one more frame to the engine
-MayHandle(s) == busy[s] = "idle" /\ (st[s] = "open" \/ (AllowLate /\ st[s] \in {"removed", "gone"} /\ ~late[s]))
+MayHandle(s) == NoCheckGap /\ busy[s] = "idle" /\ (st[s] = "open" \/ (AllowLate /\ st[s] \in {"removed", "gone"} /\ ~late[s]))
 LateAfter(s) == [late EXCEPT ![s] = @ \/ st[s] # "open"]
 \* pool.SendById(peer): the first (oldest) stream of the peer that is still in the pool; 0 = none
 FirstStream(peer) == LET c == {x \in Sids : st[x] = "open" /\ StreamPeer[x] = peer}
@@ -154,23 +164,23 @@ DecRefs(r, sp, P) == [r EXCEPT ![sp] = [p \in PatU |-> IF p \in P /\ r[sp][p] > 
 
 (* --------------------------------- pool: streams --------------------------------- *)
 OpenStream(s) ==
-    /\ st[s] = "new" /\ \A x \in Sids : x < s => st[x] # "new"
+    /\ NoCheckGap /\ st[s] = "new" /\ \A x \in Sids : x < s => st[x] # "new"
     /\ st' = [st EXCEPT ![s] = "open"]
     /\ out' = NoOut
-    /\ UNCHANGED <<tags, hasRec, recSp, recPat, total, remoteDom, refs, member, pend, busy, pendU, late, tokens, want, clientVars>>
+    /\ UNCHANGED <<tags, hasRec, recSp, recPat, total, remoteDom, refs, member, pend, busy, chk, pendU, late, tokens, want, evicted, clientVars>>
 
 \* pool.removeStream under pool.mu (read error, write error or queue overflow): ids and tags leave the index
 RemoveStream(s) ==
-    /\ st[s] = "open"
+    /\ NoCheckGap /\ st[s] = "open"
     /\ st' = [st EXCEPT ![s] = "removed"]
     /\ tags' = [tags EXCEPT ![s] = {}]
     /\ want' = [want EXCEPT ![s] = {}]
     /\ out' = NoOut
-    /\ UNCHANGED <<hasRec, recSp, recPat, total, remoteDom, refs, member, pend, busy, pendU, late, tokens, clientVars>>
+    /\ UNCHANGED <<hasRec, recSp, recPat, total, remoteDom, refs, member, pend, busy, chk, pendU, late, tokens, evicted, clientVars>>
 
 \* the close hook: withdraw exactly the closed stream's recorded interest
 OnStreamClose(s) ==
-    /\ st[s] = "removed" /\ MuFree
+    /\ NoCheckGap /\ st[s] = "removed" /\ MuFree
     /\ st' = [st EXCEPT ![s] = "gone"]
     /\ LET sps == IF hasRec[s] THEN recSp[s] \cap remoteDom ELSE {}
            r2  == [sp \in GoodSpaces |-> IF sp \in sps THEN DecRefs(refs, sp, PatsOf(recPat[s], sp))[sp] ELSE refs[sp]]
@@ -179,7 +189,7 @@ OnStreamClose(s) ==
     /\ hasRec' = [hasRec EXCEPT ![s] = FALSE] /\ recSp' = [recSp EXCEPT ![s] = {}]
     /\ recPat' = [recPat EXCEPT ![s] = {}] /\ total' = [total EXCEPT ![s] = 0]
     /\ out' = NoOut
-    /\ UNCHANGED <<tags, member, pend, busy, pendU, late, tokens, want, clientVars>>
+    /\ UNCHANGED <<tags, member, pend, busy, chk, pendU, late, tokens, want, evicted, clientVars>>
 
 (* ------------------------------- handleSubscribe ------------------------------- *)
 SubCode(s, sp, f) ==
@@ -194,7 +204,7 @@ SubReject(s, sp, f) ==
     /\ MayHandle(s) /\ SubCode(s, sp, f) # "ok"
     /\ late' = LateAfter(s)
     /\ out' = StatusOut(FirstStream(StreamPeer[s]), SubCode(s, sp, f), f)
-    /\ UNCHANGED <<st, tags, hasRec, recSp, recPat, total, remoteDom, refs, member, pend, busy, pendU, tokens, want, clientVars>>
+    /\ UNCHANGED <<st, tags, hasRec, recSp, recPat, total, remoteDom, refs, member, pend, busy, chk, pendU, tokens, want, evicted, clientVars>>
 
 \* the accept loop: duplicates skipped; at a cap this pattern and every remaining one are rejected
 RECURSIVE AcceptLoop(_, _, _, _, _)
@@ -204,10 +214,21 @@ AcceptLoop(f, i, cur, tot, acc) ==
     ELSE IF Cardinality(cur) >= MaxPerSpace \/ tot >= MaxPerStream THEN [acc |-> acc, rej |-> SubSeq(f, i, Len(f))]
     ELSE AcceptLoop(f, i + 1, cur \cup {f[i]}, tot + 1, Append(acc, f[i]))
 
+\* validation and the membership answer; no lock is held: anything may run before the subscribe goes on
+SubCheck(s, sp, f) ==
+    /\ MayHandle(s) /\ (AtomicCheck => MuFree) /\ SubCode(s, sp, f) = "ok"
+    /\ busy' = [busy EXCEPT ![s] = "check"]
+    /\ chk' = [chk EXCEPT ![s] = [sp |-> sp, f |-> f]]
+    /\ late' = LateAfter(s)
+    /\ out' = NoOut
+    /\ UNCHANGED <<st, tags, hasRec, recSp, recPat, total, remoteDom, refs, member, pend, pendU, tokens, want, evicted, clientVars>>
+
 \* remoteMu taken; space trie, stream record and bySpace entry created on demand; interest recorded
-Sub1(s, sp, f) ==
-    /\ MayHandle(s) /\ MuFree /\ SubCode(s, sp, f) = "ok"
-    /\ LET r == AcceptLoop(f, 1, PatsOf(recPat[s], sp), total[s], <<>>)
+Sub1(s) ==
+    /\ busy[s] = "check" /\ MuFree
+    /\ LET sp == chk[s].sp
+           f == chk[s].f
+           r == AcceptLoop(f, 1, PatsOf(recPat[s], sp), total[s], <<>>)
            A == SeqSet(r.acc)
        IN /\ remoteDom' = remoteDom \cup {sp}
           /\ hasRec' = [hasRec EXCEPT ![s] = TRUE]
@@ -217,14 +238,14 @@ Sub1(s, sp, f) ==
           /\ refs' = [refs EXCEPT ![sp] = [p \in PatU |-> IF p \in A THEN refs[sp][p] + 1 ELSE refs[sp][p]]]
           /\ pend' = [s |-> s, sp |-> sp, acc |-> r.acc, rej |-> r.rej]
     /\ busy' = [busy EXCEPT ![s] = "sub"]
-    /\ late' = LateAfter(s)
+    /\ chk' = [chk EXCEPT ![s] = NoChk]
     /\ out' = NoOut
-    /\ UNCHANGED <<st, tags, member, pendU, tokens, want, clientVars>>
+    /\ UNCHANGED <<st, tags, member, pendU, late, tokens, want, evicted, clientVars>>
 
 \* AddTagsCtx under pool.mu; when the stream is no longer in the pool the interest is rolled back;
 \* remoteMu released; the rejected tail is reported
 Sub2 ==
-    /\ pend # NoPend
+    /\ NoCheckGap /\ pend # NoPend
     /\ LET s == pend.s
            sp == pend.sp
            A == SeqSet(pend.acc)
@@ -254,7 +275,7 @@ Sub2 ==
     /\ out' = IF pend.rej # <<>> THEN StatusOut(FirstStream(StreamPeer[pend.s]), "TooManyTopics", pend.rej) ELSE NoOut
     /\ busy' = [busy EXCEPT ![pend.s] = "idle"]
     /\ pend' = NoPend
-    /\ UNCHANGED <<st, member, pendU, late, tokens, clientVars>>
+    /\ UNCHANGED <<st, member, chk, pendU, late, tokens, evicted, clientVars>>
 
 (* ------------------------------ handleUnsubscribe ------------------------------ *)
 Unsub1(s, sp, P) ==
@@ -276,16 +297,16 @@ Unsub1(s, sp, P) ==
                /\ want' = [want EXCEPT ![s] = @ \ Tag(sp, R)]
                /\ busy' = [busy EXCEPT ![s] = IF R # {} THEN "unsub" ELSE "idle"]
                /\ pendU' = [pendU EXCEPT ![s] = Tag(sp, R)]
-    /\ UNCHANGED <<st, tags, member, pend, tokens, clientVars>>
+    /\ UNCHANGED <<st, tags, member, pend, chk, tokens, evicted, clientVars>>
 
 \* RemoveTagsCtx outside remoteMu ("stream not found" is only logged)
 Unsub2(s) ==
-    /\ busy[s] = "unsub"
+    /\ NoCheckGap /\ busy[s] = "unsub"
     /\ tags' = [tags EXCEPT ![s] = IF st[s] = "open" THEN @ \ pendU[s] ELSE @]
     /\ busy' = [busy EXCEPT ![s] = "idle"]
     /\ pendU' = [pendU EXCEPT ![s] = {}]
     /\ out' = NoOut
-    /\ UNCHANGED <<st, hasRec, recSp, recPat, total, remoteDom, refs, member, pend, late, tokens, want, clientVars>>
+    /\ UNCHANGED <<st, hasRec, recSp, recPat, total, remoteDom, refs, member, pend, chk, late, tokens, want, evicted, clientVars>>
 
 (* ------------------- evictSpaceStreams / CloseSpace (one remoteMu hold) ------------------- *)
 \* drop the space interest of every stream of S: record, tags (RemoveTagsById ignores missing streams)
@@ -298,8 +319,9 @@ DropSpaceOf(S, sp) ==
                                  ELSE recSp[x]]
     /\ tags' = [x \in Sids |-> IF x \in S THEN tags[x] \ OfSpace(recPat[x], sp) ELSE tags[x]]
 
-EvictWhere(sp, cond(_)) ==
-    /\ MuFree
+EvictWhere(sp, cond(_), gone) ==
+    /\ NoCheckGap /\ MuFree
+    /\ evicted' = evicted \cup gone
     /\ LET S == {x \in Sids : PatsOf(recPat[x], sp) # {} /\ cond(x)}
            r2 == IF sp \in remoteDom /\ sp \in GoodSpaces
                    THEN [refs EXCEPT ![sp] = [p \in PatU |->
@@ -311,26 +333,30 @@ EvictWhere(sp, cond(_)) ==
           /\ remoteDom' = IF sp \in GoodSpaces THEN PruneSpace(r2, remoteDom, sp) ELSE remoteDom
           /\ want' = [x \in Sids |-> IF cond(x) THEN want[x] \ OfSpace(want[x], sp) ELSE want[x]]
     /\ out' = NoOut
-    /\ UNCHANGED <<st, member, pend, busy, pendU, late, tokens, clientVars>>
+    /\ UNCHANGED <<st, member, pend, busy, chk, pendU, late, tokens, clientVars>>
 
-EvictMember(sp, a) == EvictWhere(sp, LAMBDA x : StreamAcct[x] = a)
-Revalidate(sp)     == EvictWhere(sp, LAMBDA x : <<StreamAcct[x], sp>> \notin member)
+\* (ghost) an account counts as evicted from the space when the eviction finds it outside the member list
+EvictMember(sp, a) == EvictWhere(sp, LAMBDA x : StreamAcct[x] = a, IF <<a, sp>> \in member THEN {} ELSE {<<a, sp>>})
+Revalidate(sp)     == EvictWhere(sp, LAMBDA x : <<StreamAcct[x], sp>> \notin member,
+                                 {<<StreamAcct[x], sp>> : x \in {y \in Sids : StreamAcct[y] # "none" /\ <<StreamAcct[y], sp>> \notin member}})
 
 CloseSpace(sp) ==
-    /\ MuFree
+    /\ NoCheckGap /\ MuFree
     /\ DropSpaceOf({x \in Sids : PatsOf(recPat[x], sp) # {}}, sp)
     /\ remoteDom' = remoteDom \ {sp}
     /\ refs' = IF sp \in GoodSpaces THEN [refs EXCEPT ![sp] = [p \in PatU |-> 0]] ELSE refs
     /\ want' = [x \in Sids |-> want[x] \ OfSpace(want[x], sp)]
     /\ lpats' = lpats \ OfSpace(lpats, sp)          \* client side of CloseSpace
     /\ out' = NoOut
-    /\ UNCHANGED <<st, member, pend, busy, pendU, late, tokens, ring, hid>>
+    /\ UNCHANGED <<st, member, pend, busy, chk, pendU, late, tokens, evicted, ring, hid>>
 
 AddMember(a, sp) ==
-    /\ <<a, sp>> \notin member /\ member' = member \cup {<<a, sp>>}
-    /\ out' = NoOut /\ UNCHANGED <<nodeVars, clientVars>>
+    /\ NoCheckGap /\ <<a, sp>> \notin member /\ member' = member \cup {<<a, sp>>}
+    /\ evicted' = evicted \ {<<a, sp>>}
+    /\ out' = NoOut
+    /\ UNCHANGED <<st, tags, hasRec, recSp, recPat, total, remoteDom, refs, pend, busy, chk, pendU, late, tokens, want, clientVars>>
 RemoveMember(a, sp) ==
-    /\ <<a, sp>> \in member /\ member' = member \ {<<a, sp>>}
+    /\ NoCheckGap /\ <<a, sp>> \in member /\ member' = member \ {<<a, sp>>}
     /\ out' = NoOut /\ UNCHANGED <<nodeVars, clientVars>>
 
 (* ------------------------- handlePublish on a node (relayPublish) ------------------------- *)
@@ -368,7 +394,7 @@ Publish(s, claimed, sp, t, relayed, idOk) ==
                      handled |-> {}, m |-> NoMsg,
                      pub |-> [s |-> s, claimed |-> claimed, sp |-> sp, t |-> t, relayed |-> relayed, idOk |-> idOk]]
     /\ late' = LateAfter(s)
-    /\ UNCHANGED <<st, tags, hasRec, recSp, recPat, total, remoteDom, refs, member, pend, busy, pendU, want, clientVars>>
+    /\ UNCHANGED <<st, tags, hasRec, recSp, recPat, total, remoteDom, refs, member, pend, busy, chk, pendU, want, evicted, clientVars>>
 
 (* --------------------------------- client half --------------------------------- *)
 LSubscribe(sp, p) ==        \* Service.Subscribe: invalid patterns are refused
@@ -423,7 +449,8 @@ NodeNext ==
     \/ \E s \in Sids : RemoveStream(s)
     \/ \E s \in Sids : OnStreamClose(s)
     \/ \E s \in Sids, sp \in Spaces, f \in SubFrames : SubReject(s, sp, f)
-    \/ \E s \in Sids, sp \in Spaces, f \in SubFrames : Sub1(s, sp, f)
+    \/ \E s \in Sids, sp \in Spaces, f \in SubFrames : SubCheck(s, sp, f)
+    \/ \E s \in Sids : Sub1(s)
     \/ Sub2
     \/ \E s \in Sids, sp \in GoodSpaces, P \in UnsubFrames : Unsub1(s, sp, P)
     \/ \E s \in Sids : Unsub2(s)
@@ -488,6 +515,11 @@ NoLeakAfterTeardown ==
     (Quiescent /\ \A s \in Sids : want[s] = {}) =>
         /\ remoteDom = {} /\ \A sp \in GoodSpaces : \A p \in PatU : refs[sp][p] = 0
         /\ \A s \in Sids : ~hasRec[s] /\ recSp[s] = {} /\ recPat[s] = {} /\ tags[s] = {} /\ total[s] = 0
+
+\* an account evicted as a non-member holds no subscription until it is re-admitted. With the membership check
+\* of a subscribe outside remoteMu (AtomicCheck = FALSE, as the code is) this does NOT hold: a subscribe that
+\* passed the check before the removal records its interest after the eviction. Checked in its own config.
+EvictedStayOut == \A s \in Sids : \A sp \in GoodSpaces : <<StreamAcct[s], sp>> \in evicted => OfSpace(want[s], sp) = {}
 
 NodeInv == TypeOK /\ TrieAgreesWithRecords /\ TotalConsistent /\ TagsOnlyInPool /\ WantServed
            /\ ViewsAgreeAtQuiescence /\ NoLeakAfterTeardown
